@@ -20,16 +20,16 @@ type SimBody struct {
 	name   string
 	chunks [][]byte
 	// terminal condition once all chunks are consumed
-	ended   bool
-	endErr  error // io.EOF for clean end
-	eofWithData bool // deliver io.EOF together with the last bytes (legal io.Reader behaviour, net/http does it)
-	closed  bool
-	nread   int
-	Reads   int
+	ended       bool
+	endErr      error // io.EOF for clean end
+	eofWithData bool  // deliver io.EOF together with the last bytes (legal io.Reader behaviour, net/http does it)
+	closed      bool
+	nread       int
+	Reads       int
 	// set when ServeHTTP has returned; later calls are "late"
-	served *bool
-	Late   []string
-	CloseCount int
+	served       *bool
+	Late         []string
+	CloseCount   int
 	ReadAfterEnd int
 }
 
@@ -126,10 +126,10 @@ type simRW struct {
 	served    *bool
 	Late      []string
 
-	Problems       []string // contract violations (M-http)
-	Superfluous    int
-	Trailers       http.Header
-	LostHeaderKeys []string
+	Problems              []string // contract violations (M-http)
+	Superfluous           int
+	Trailers              http.Header
+	LostHeaderKeys        []string
 	headerWritesVisibleAt uint64
 	firstByteVisibleSeq   uint64
 }
@@ -340,7 +340,7 @@ func (r rwWrapped) Unwrap() http.ResponseWriter { return r.inner }
 
 type rwNoFlush struct{ *simRW }
 
-type rwPlain struct{ rw *simRW } // no Flusher at all
+type rwPlain struct{ rw *simRW }              // no Flusher at all
 func (r rwPlain) Header() http.Header         { return r.rw.Header() }
 func (r rwPlain) WriteHeader(s int)           { r.rw.WriteHeader(s) }
 func (r rwPlain) Write(p []byte) (int, error) { return r.rw.Write(p) }
